@@ -49,7 +49,7 @@ func c07Order(c *Ctx) {
 	p := c.P
 	rule := "C07.order"
 	c.Doc(rule, "newConsumerGroupSession: handler.Setup precedes every `go` that runs sess.consume; release: cancel() → waitGroup.Wait() → releaseOnce.Do{ Cleanup (if asked) → offsets.Close() → close(hbDying) → <-hbDead }; Setup/Cleanup/ConsumeClaim have exactly one call site; Consume: after the session exists every path to return passes sess.release(true)")
-	c.Floor(rule, 9)
+	c.Floor(rule, 10)
 	setup := p.CallTo("ConsumerGroupHandler.Setup")
 	cleanup := p.CallTo("ConsumerGroupHandler.Cleanup")
 	claim := p.CallTo("ConsumerGroupHandler.ConsumeClaim")
@@ -59,6 +59,18 @@ func c07Order(c *Ctx) {
 	}
 	if fn := c.NeedFn(rule, "newConsumerGroupSession"); fn != nil {
 		reg := WholeFn(fn)
+		// release() waits for the heartbeat goroutine (<-hbDead): it may only be called once that goroutine exists
+		goHB := func(it Item) bool {
+			f := p.GoTarget(it)
+			return f != nil && p.Name(f) == "consumerGroupSession.heartbeatLoop"
+		}
+		rel := p.CallTo("consumerGroupSession.release")
+		if len(reg.Find(goHB)) == 0 {
+			c.Fail(rule, fn, "heartbeat-started-before-release", nil, "newConsumerGroupSession does not start the heartbeat goroutine", nil)
+		} else {
+			it, path := reg.MustPrecede(goHB, rel)
+			c.Check(it.IsZero(), rule, fn, "heartbeat-started-before-release", it.Instr(), "the heartbeat goroutine is started before any path can call sess.release", "newConsumerGroupSession can call sess.release before the heartbeat goroutine was started: release closes hbDying and then waits for hbDead, which only that goroutine closes — Consume hangs holding the group's lock, and Close hangs behind it", path)
+		}
 		if len(reg.Find(goConsume)) == 0 || len(reg.Find(setup)) == 0 {
 			c.Unresolved(rule, "Setup call / claim goroutines in newConsumerGroupSession")
 		} else {
